@@ -1,8 +1,11 @@
 //! Thin run-time-selectable wrappers around the crate's real objects, so that
-//! one `Keyboard<DynLayout, DynSet>` type serves every configuration. They only
-//! forward; the recording layout is the single stub.
+//! one `KbAny` / `DynSet` / `DynLayout` serves every configuration. They only
+//! forward; the recording layout is the single stub. `KbAny` holds a
+//! `Keyboard` over the *concrete* scancode-set type (never over a wrapper), so
+//! that anything the crate does through the `ScancodeSet` trait reaches the real
+//! implementation.
 use pc_keyboard::layouts::*;
-use pc_keyboard::{DecodedKey, Error, HandleControl, KeyCode, KeyEvent, KeyboardLayout, Modifiers, ScancodeSet, ScancodeSet1, ScancodeSet2};
+use pc_keyboard::{DecodedKey, Error, HandleControl, KeyCode, KeyEvent, Keyboard, KeyboardLayout, Modifiers, ScancodeSet, ScancodeSet1, ScancodeSet2};
 use std::cell::RefCell;
 use std::rc::Rc;
 
@@ -19,12 +22,59 @@ impl DynSet {
         }
     }
 }
-impl ScancodeSet for DynSet {
-    fn advance_state(&mut self, code: u8) -> Result<Option<KeyEvent>, Error> {
+impl DynSet {
+    pub fn advance_state(&mut self, code: u8) -> Result<Option<KeyEvent>, Error> {
         match self {
             DynSet::S1(s) => s.advance_state(code),
             DynSet::S2(s) => s.advance_state(code),
         }
+    }
+}
+
+/// A real `Keyboard` over the concrete scancode set selected at run time.
+pub enum KbAny {
+    K1(Keyboard<DynLayout, ScancodeSet1>),
+    K2(Keyboard<DynLayout, ScancodeSet2>),
+}
+macro_rules! kb_fwd {
+    ($self:ident, $k:ident => $e:expr) => {
+        match $self {
+            KbAny::K1($k) => $e,
+            KbAny::K2($k) => $e,
+        }
+    };
+}
+impl KbAny {
+    pub fn new(set: u8, layout: DynLayout, h: HandleControl) -> KbAny {
+        if set == 1 {
+            KbAny::K1(Keyboard::new(ScancodeSet1::new(), layout, h))
+        } else {
+            KbAny::K2(Keyboard::new(ScancodeSet2::new(), layout, h))
+        }
+    }
+    pub fn add_bit(&mut self, bit: bool) -> Result<Option<KeyEvent>, Error> {
+        kb_fwd!(self, k => k.add_bit(bit))
+    }
+    pub fn add_word(&mut self, w: u16) -> Result<Option<KeyEvent>, Error> {
+        kb_fwd!(self, k => k.add_word(w))
+    }
+    pub fn add_byte(&mut self, b: u8) -> Result<Option<KeyEvent>, Error> {
+        kb_fwd!(self, k => k.add_byte(b))
+    }
+    pub fn process_keyevent(&mut self, e: KeyEvent) -> Option<DecodedKey> {
+        kb_fwd!(self, k => k.process_keyevent(e))
+    }
+    pub fn clear(&mut self) {
+        kb_fwd!(self, k => k.clear())
+    }
+    pub fn set_ctrl_handling(&mut self, h: HandleControl) {
+        kb_fwd!(self, k => k.set_ctrl_handling(h))
+    }
+    pub fn get_ctrl_handling(&self) -> HandleControl {
+        kb_fwd!(self, k => k.get_ctrl_handling())
+    }
+    pub fn get_modifiers(&self) -> &Modifiers {
+        kb_fwd!(self, k => k.get_modifiers())
     }
 }
 
